@@ -86,6 +86,19 @@ def c03_a(ctx):
             if t[0] == 'sub' and t[2] == ('slice', ('const', 1), ('const', None), ('const', None)) \
                     and e.args and exc.term(e.args[0]) == t[1]:
                 ok = True
+    # the edge is added exactly for nodes whose flag is set to a true value (the public
+    # getter reads `.get(flag, False)`: a present-but-false flag means "not used")
+    okt = bool(edges) and all(
+        any(pol and match(g, pattern("_d['attr_dict'][_i]")) is not None and
+            match(g, pattern("_d['attr_dict'][_i]"))['i'][0] in ('item', 'elem')
+            for (g, pol, _) in ctx.guards(comp, e)) and
+        not any(pol and match(g, pattern("_i in _d['attr_dict']")) is not None
+                for (g, pol, _) in ctx.guards(comp, e)) for e in edges)
+    ctx.check(okt, comp, 'instruction served iff the flag is true',
+              "if d['attr_dict'].get(instruction): add_edge(...)",
+              'the instruction edge is added on mere presence of the flag (a flag set to False '
+              'still gets batch_size / meta), unlike the getter which reads its truth value',
+              fn=comp, node=edges[0] if edges else comp.node)
     ctx.check(ok, comp, 'edge parameter is the node name without underscore',
               "add_edge(_node, node, param=_node[1:]) -> 'batch_size', 'meta'",
               'the instruction edge parameter is not the node name with the leading underscore '
